@@ -120,6 +120,19 @@ func nearShift(t time.Time, loc *time.Location) bool {
 	return offsetAt(t.Add(-3*time.Hour), loc) != offsetAt(t.Add(3*time.Hour), loc)
 }
 
+// wallClockRepeats reports whether the local wall-clock reading of t occurs twice (t lies in the hour, or half
+// hour, that is repeated when the zone's clocks are set back).
+func wallClockRepeats(t time.Time, loc *time.Location) bool {
+	l := t.In(loc)
+	for _, d := range []time.Duration{-2 * time.Hour, -time.Hour, -30 * time.Minute, 30 * time.Minute, time.Hour, 2 * time.Hour} {
+		o := l.Add(d)
+		if o.Year() == l.Year() && o.YearDay() == l.YearDay() && o.Hour() == l.Hour() && o.Minute() == l.Minute() && o.Second() == l.Second() {
+			return true
+		}
+	}
+	return false
+}
+
 // classify: index of the window containing t, or -1; judged=false near an edge or a shifted edge.
 func classify(ws []window, t time.Time, loc *time.Location) (idx int, judged bool, nearEdge time.Duration) {
 	idx = -1
@@ -134,8 +147,8 @@ func classify(ws []window, t time.Time, loc *time.Location) (idx int, judged boo
 			if d < nearEdge {
 				nearEdge = d
 			}
-			if d < 90*time.Second {
-				judged = false
+			if d < 2*time.Second {
+				judged = false // the one-second edge itself (the last second of a window is inclusive)
 			}
 		}
 		if !t.Before(w.open) && !t.After(w.close) {
@@ -314,6 +327,56 @@ func checkConfig(c *core.Ctx, r *core.Result, ci int, cf cfg, rng *rand.Rand, oi
 			if verbose {
 				fmt.Printf("%+v\n", w)
 			}
+		}
+	}
+	// instants close to every window edge (2 s and 30 s either side: away from the one-second edge itself)
+	for _, w := range ws {
+		for _, e := range []time.Time{w.open, w.close} {
+			if e.Before(origin) || e.After(end) {
+				continue
+			}
+			for _, d := range []time.Duration{-30 * time.Second, -2 * time.Second, 2 * time.Second, 30 * time.Second} {
+				t := e.Add(d)
+				idx, judged, _ := classify(ws, t, loc)
+				pts = append(pts, pt{t, idx, judged})
+				if !judged {
+					continue
+				}
+				r.Eval(1)
+				if got, want := v.InRange(t), idx >= 0; got != want {
+					w := witness{Config: cf.String(), T1: t.UTC().Format(time.RFC3339), Local1: t.In(loc).Format("Mon 2006-01-02 15:04:05 MST"), Expect: fmt.Sprintf("in range = %v", want), Got: fmt.Sprintf("in range = %v", got), Windows: winStr(ws, t, loc)}
+					r.Violate("C18/in-range/near-edge/"+sigClass(cf, t, loc), fmt.Sprintf("%s: %s (%v from a window edge) reported in range = %v, the configured windows say %v", cf, w.Local1, d, got, want), w)
+				}
+			}
+		}
+	}
+	// every instant, whatever the reference says about it (also next to offset changes, where the configured wall-clock
+	// times are ambiguous): an instant is in the same session as itself exactly when it is in range
+	sh, sm, ss := hms(cf.Start)
+	eh, em, es := hms(cf.End)
+	for _, p := range pts {
+		// (not within 2 s of the configured start or end reading of the clock: the one-second edges)
+		lt := p.t.In(loc)
+		tod := lt.Hour()*3600 + lt.Minute()*60 + lt.Second()
+		atEdge := false
+		for _, e := range []int{sh*3600 + sm*60 + ss, eh*3600 + em*60 + es} {
+			d := (tod - e + 86400) % 86400
+			if d < 2 || d > 86400-2 {
+				atEdge = true
+			}
+		}
+		if atEdge {
+			continue
+		}
+		r.Eval(1)
+		in, self := v.InRange(p.t), v.SameRange(p.t, p.t)
+		if in != self {
+			cls := "other"
+			if wallClockRepeats(p.t, loc) {
+				cls = "repeated-hour"
+			}
+			w := witness{Config: cf.String(), T1: p.t.UTC().Format(time.RFC3339), Local1: p.t.In(loc).Format("Mon 2006-01-02 15:04:05 MST"), Expect: fmt.Sprintf("same session as itself = in range = %v", in), Got: fmt.Sprintf("same session as itself = %v", self), Windows: winStr(ws, p.t, loc)}
+			r.Violate("C18/same-range/irreflexive/"+cls, fmt.Sprintf("%s: %s is reported in range = %v but in the same session as itself = %v", cf, w.Local1, in, self), w)
 		}
 	}
 	// pairs within 9 days
